@@ -1,0 +1,76 @@
+//go:build verif
+
+// Verification hooks (build tag "verif" only): read-only views of the router's
+// static-route shortcut table and of its own per-method route trees. Nothing in
+// the normal build refers to this file.
+
+package flamego
+
+import (
+	"net/http"
+
+	"github.com/flamego/flamego/internal/route"
+)
+
+// VerifStaticEntry is one entry of the static-route shortcut table.
+type VerifStaticEntry struct {
+	Method    string
+	Key       string
+	Route     string
+	Static    bool
+	HasHeader bool
+	LeafID    string
+}
+
+// VerifStaticTable enumerates the whole shortcut table of the instance.
+func VerifStaticTable(f *Flame) []VerifStaticEntry {
+	r, ok := f.Router.(*router)
+	if !ok {
+		return nil
+	}
+	var out []VerifStaticEntry
+	for m, tbl := range r.staticRoutes {
+		for k, leaf := range tbl {
+			out = append(out, VerifStaticEntry{
+				Method:    m,
+				Key:       k,
+				Route:     leaf.Route(),
+				Static:    leaf.Static(),
+				HasHeader: route.VerifLeafHasHeader(leaf),
+				LeafID:    route.VerifLeafID(leaf),
+			})
+		}
+	}
+	return out
+}
+
+// VerifTreeMatch runs full tree matching on the router's own tree of the method,
+// bypassing the shortcut table.
+func VerifTreeMatch(f *Flame, method, path string, h http.Header) (routeText string, params map[string]string, leafID string, ok bool) {
+	r, isRouter := f.Router.(*router)
+	if !isRouter {
+		return "", nil, "", false
+	}
+	tree, has := r.routeTrees[method]
+	if !has {
+		return "", nil, "", false
+	}
+	leaf, ps, matched := tree.Match(path, h)
+	if !matched {
+		return "", nil, "", false
+	}
+	return leaf.Route(), ps, route.VerifLeafID(leaf), true
+}
+
+// VerifTreeDump dumps the router's own tree of the method.
+func VerifTreeDump(f *Flame, method string) *route.VerifNode {
+	r, isRouter := f.Router.(*router)
+	if !isRouter {
+		return nil
+	}
+	tree, has := r.routeTrees[method]
+	if !has {
+		return nil
+	}
+	return route.VerifDump(tree)
+}
